@@ -8,7 +8,7 @@ package main
 //	  => ok fmt=<0|1> rerun=<0|1> perm=<0|1> compiles=<1|0:first-error> <imports> <dsInventory>
 //
 // fmt      format.Source(output) == output
-// rerun    a second Generate on a freshly built equal dictionary is byte-identical
+// rerun    a second Generate on the same dictionary value AND one on a freshly built equal dictionary are byte-identical
 // perm     every tried permutation of the ATTRIBUTE and VENDOR declarations (VALUE order kept) gives the
 //          same bytes (resp. also an error): all dsPermutations when there are <= 4 declarations, otherwise
 //          reversal, adjacent swaps, rotations and pseudo-random shuffles derived from the case itself
@@ -307,6 +307,12 @@ func evalC17(op string, args []string) string {
 		return "BAD-CASE"
 	}
 	out, err := opts.generator().Generate(dict)
+	// a second run on the SAME *Dictionary value: Generate must not have modified its argument
+	outSame, errSame := opts.generator().Generate(dict)
+	sameOK := (errSame != nil) == (err != nil) && (err != nil || bytes.Equal(out, outSame))
+	if !sameOK && err != nil {
+		return "ok fmt=0 rerun=0 perm=0 compiles=0:second_run_on_the_same_dictionary_differs - -"
+	}
 
 	h := fnv.New64a()
 	h.Write([]byte(strings.Join(args, "\t")))
@@ -325,7 +331,7 @@ func evalC17(op string, args []string) string {
 	formatted, ferr := format.Source(out)
 	fmtOK := ferr == nil && bytes.Equal(formatted, out)
 	out2, err2 := dsParseOpts(args[3], args[4], args[5]).generator().Generate(dsParseDict(args[0], args[1], args[2]))
-	rerunOK := err2 == nil && bytes.Equal(out, out2)
+	rerunOK := err2 == nil && bytes.Equal(out, out2) && sameOK
 	decls, imports, ierr := dsInventory(out)
 	if ierr != nil {
 		return "ok fmt=0 rerun=" + dsB01(rerunOK) + " perm=" + dsB01(permOK) + " compiles=0:" + dsErrToken(ierr) + " - -"
